@@ -982,6 +982,8 @@ func wgRunOne(b *BatchResult, prop string, seed, run uint64, p wgParams) {
 	}
 	if r.chance(4) && injectAliasing(r, m) {
 		b.Mix["models_with_shared_messages"]++
+	} else if r.chance(3) && injectInterning(r, m) {
+		b.Mix["models_with_interned_rewrites"]++
 	}
 	if (prop == "C05" || prop == "C04") && r.chance(2) && injectEmptyDirect(r, m) {
 		b.Mix["models_with_empty_direct_assignment_under_operator"]++
